@@ -260,8 +260,8 @@ def run(tier, seed):
             with open(lines_path) as f:
                 for i, l in enumerate(f):
                     if i % 250007 == 1 and len(samples) < 12: samples.append(l.strip())
-            # alternative build configuration (thorough): -O2, GLM_FORCE_INTRINSICS + AVX2 (popcnt bitCount): identical output required
-            if tier == 'thorough':
+            # alternative build configuration (both tiers): -O2, GLM_FORCE_INTRINSICS + AVX2 (popcnt specialisations of bitCount, func_integer_simd.inl): identical output required
+            if True:
                 alt, aerr = build_harness(ALT, 'alt')
                 if aerr:
                     notes.append('alternative configuration (GLM_FORCE_INTRINSICS, -mavx2) did not compile: ' + aerr[-300:])
